@@ -69,6 +69,13 @@ def run(rep, tier, seed, b):
     for dpt in (10, 100, 300):
         items.append((presets[2], '[S][Branch3][P][P][P]' * dpt + '[C]', False, False))
     items.append((presets[0], '[C][Ring3][P][P][P]' * 50, True, True))
+    # many ring bonds in one call (100 and more distinct ring closures: the writer's label counter is never reused), in one fragment and across fragments
+    for k in (99, 100, 101, 150):
+        for a_ in (False, True):
+            items.append((presets[0], '[C][C][C][Ring1][Ring1]' * k, False, a_))
+            items.append((presets[0], '.'.join(['[C][C][C][Ring1][Ring1]'] * k), False, a_))
+            items.append((presets[0], '[C]' + '[C][C][=Ring1][Ring1][C]' * k, False, a_))
+            items.append((presets[0], '[C][C][C][Expl=Ring1][Ring1]' * k, True, a_))
     items.append((presets[0], '[' + '1' * 4000 + 'C]', False, False))
     res = core.pmap('p_c08', 'work', items, chunk=500)
     slow = 0.0
